@@ -250,10 +250,17 @@ def specKind : Json → SpecKind
   | .obj kvs => specKindObj kvs
   | _ => .invalid
 
+/-- one supplied value as an argument: decoded to the parameter's type; juno's documented rule for
+`null` (since 4d3f28e): "not given" for an optional parameter, never a value of a required one -/
+def specArg (env : Env) (p : Param) (v : Json) : Option Json :=
+  if env.nullNotGiven = true ∧ v matches .null then
+    (if p.optional then some (env.zero p.ty) else none)
+  else env.decode p.ty v
+
 /-- §4.2 by position: the supplied values against the first parameters, in order -/
 def specDecodeAll (env : Env) : List Param → List Json → Option (List Json)
   | p :: ps, v :: vs => do
-    let a ← env.decode p.ty v
+    let a ← specArg env p v
     let r ← specDecodeAll env ps vs
     pure (a :: r)
   | _, _ => some []
@@ -265,7 +272,7 @@ def specNamed (env : Env) (kvs : List (String × Json)) : List Param → Option 
   | p :: ps =>
     match member kvs p.name with
     | some v => do
-      let a ← env.decode p.ty v
+      let a ← specArg env p v
       let r ← specNamed env kvs ps
       pure (a :: r)
     | none =>
